@@ -174,7 +174,7 @@ def run(ctx):
             rep.sample({"host": "%d.%d" % hv, "value": exprs[-1], "xdis.marsh.dumps": results[-1].get("xdumps", "")[:80]})
             # the same questions after this process has marshalled code objects of other versions
             hist = w.r("marsh_history", repo=core.REPO)
-            sub = list(range(0, len(exprs), max(1, len(exprs) // 60)))
+            sub = sorted(set(range(len(ATOMS))) | set(range(0, len(exprs), max(1, len(exprs) // 60))))
             for i in sub:
                 r1 = results[i]
                 if not isinstance(r1, dict) or "xdumps" not in r1:
